@@ -18,6 +18,8 @@ pub struct SupArgs {
     pub verif_dir: String,
     /// where evidence and replay files go: verif_dir, or a scratch directory when another tree than /repo is under test
     pub out_dir: String,
+    /// cross-check mode (real-rayon engine): write only this summary file, leave the evidence file alone
+    pub summary_only: Option<String>,
     pub emit_fp: bool,
 }
 
@@ -259,12 +261,14 @@ pub fn supervise(a: SupArgs) -> Outcome {
     a.out_dir = if crate::core::rt::repo_dir() == "/repo" { a.verif_dir.clone() } else { format!("{}/target/alt-out", a.verif_dir) };
     let total = a.runs.unwrap_or_else(|| prop.runs(a.tier));
     // stale replay files of this property would be mistaken for this run's
+    if a.summary_only.is_none() {
     if let Ok(rd) = std::fs::read_dir(format!("{}/replays", a.out_dir)) {
         for e in rd.flatten() {
             if e.file_name().to_string_lossy().starts_with(&format!("{}-", prop.id())) {
                 let _ = std::fs::remove_file(e.path());
             }
         }
+    }
     }
     let mut m = match collect(&a, total) {
         Ok(m) => m,
@@ -334,7 +338,7 @@ pub fn supervise(a: SupArgs) -> Outcome {
         let best = members.iter().copied().min_by_key(|i| (m.violations[*i].1.ops.len(), m.violations[*i].0)).unwrap();
         let (idx, case, vs) = &m.violations[best];
         let v = vs.iter().find(|v| &v.oracle == oracle && &v.sig == sig).unwrap();
-        let path = format!("{}/replays/{}-{}-{}.json", a.out_dir, prop.id(), oracle.replace('.', "_"), idx);
+        let path = format!("{}/replays/{}-{}-{}{}.json", a.out_dir, prop.id(), oracle.replace('.', "_"), idx, if a.summary_only.is_some() { "-native" } else { "" });
         let path = if pending.iter().any(|p| p.path == path) { format!("{}.{}.json", path.trim_end_matches(".json"), reported) } else { path };
         let rep = crate::replay::Replay { case: case.clone(), oracle: oracle.clone(), sig: sig.clone(), detail: v.detail.clone(), minimised: false, tier: a.tier };
         let _ = std::fs::write(&path, rep.to_json().pretty());
@@ -376,7 +380,20 @@ pub fn supervise(a: SupArgs) -> Outcome {
         println!("KNOWN-FINDING: property={} {} [{} / {}] (observed in {} cases of this run)", prop.id(), f.3, f.1, f.2, n);
     }
     let wall = t0.elapsed().as_secs_f64();
-    crate::evidence::write(&a, prop, &m, total, wall, reported, &known_hits, &replay_paths);
+    match &a.summary_only {
+        None => crate::evidence::write(&a, prop, &m, total, wall, reported, &known_hits, &replay_paths),
+        Some(file) => {
+            let j = J::obj()
+                .set("engine", J::s(crate::pool::ENGINE))
+                .set("what", J::s("the same property check executed by the harness built against the REAL rayon (OS threads, global pool of the machine's cores, caller-installed pools where the check installs them); schedule not controlled, not replayable: a cross-check, never the deciding engine"))
+                .set("cases", J::U(m.cases))
+                .set("library_calls", J::U(m.calls))
+                .set("violating_cases", J::U(m.viol_cases))
+                .set("unknown_violation_groups", J::U(reported as u64))
+                .set("wall_s", J::F((wall * 10.0).round() / 10.0));
+            let _ = std::fs::write(file, j.pretty());
+        }
+    }
     println!(
         "graphsim: {} cases, {} distinct fingerprints, {} distinct non-trivial, {} violating cases ({} unknown groups, {} known), {:.1}s",
         m.cases,
